@@ -82,10 +82,17 @@ def model_of(x):
 # coefficients: kind i -> ints; f -> ints meaning value/4 ; c -> [re, im] int
 # pairs meaning (re + im*j)/2.
 
-KIND_DTYPE = {"i": "int64", "f": "float64", "c": "complex128"}
+KIND_DTYPE = {"i": "int64", "f": "float64", "c": "complex128", "b": "bool"}
+
+
+def desc_dtype(desc):
+    """Coefficient dtype of a description: an explicit "dtype" (narrow widths) or the kind's native one."""
+    return desc.get("dtype") or KIND_DTYPE[desc["kind"]]
 
 
 def coef_value(kind, c):
+    if kind == "b":
+        return bool(c)
     if kind == "i":
         return int(c)
     if kind == "f":
@@ -94,6 +101,8 @@ def coef_value(kind, c):
 
 
 def coef_exact(kind, c):
+    if kind == "b":
+        return int(bool(c))
     if kind == "i":
         return int(c)
     if kind == "f":
@@ -129,7 +138,7 @@ def build_poly(desc):
 
     shape = desc_shape(desc)
     kind = desc["kind"]
-    dtype = KIND_DTYPE[kind]
+    dtype = desc_dtype(desc)
     names = tuple(desc["names"])
     terms = desc["terms"]
     if not terms:
@@ -167,7 +176,7 @@ def build_checked(desc):
         not (got[i] == m[i]) for i in numpy.ndindex(*m.shape)
     ):
         raise BuilderMismatch("constructor returned a different polynomial")
-    if str(p.dtype) != KIND_DTYPE[desc["kind"]]:
+    if str(p.dtype) != desc_dtype(desc):
         raise BuilderMismatch("dtype %s" % (p.dtype,))
     return p, m
 
